@@ -9,6 +9,7 @@ package parser
 import (
 	"errors"
 	"fmt"
+	"math"
 
 	"k8s.io/apimachinery/pkg/apis/meta/v1/unstructured"
 	"k8s.io/apimachinery/pkg/runtime"
@@ -81,6 +82,9 @@ func resourceInfoToK8sObject(info *resource.Info, l logger.Logger, muteErrsAndWa
 			logError(l, fpErr, muteErrsAndWarns)
 			return nil, fpErr
 		}
+		if resObject.Kind == AdminNetworkPolicy {
+			keepPriorityOutOfRange(unstructuredObj, &resObject.AdminNetworkPolicy.Spec.Priority)
+		}
 		resObject.initDefaultNamespace()
 	} else {
 		// failed conversion to unstructured
@@ -90,6 +94,27 @@ func resourceInfoToK8sObject(info *resource.Info, l logger.Logger, muteErrsAndWa
 	}
 
 	return &resObject, nil
+}
+
+// keepPriorityOutOfRange : the conversion from unstructured truncates integers silently, so a priority which does
+// not fit int32 could wrap around into the valid range (e.g. 4294967346 becomes 50).
+// such a priority is kept outside the valid range, so that the policy is rejected as any policy with an invalid priority
+func keepPriorityOutOfRange(obj *unstructured.Unstructured, priority *int32) {
+	spec, _ := obj.Object["spec"].(map[string]interface{})
+	var written float64
+	switch p := spec["priority"].(type) {
+	case int64:
+		written = float64(p)
+	case float64:
+		written = p
+	default:
+		return
+	}
+	if written > math.MaxInt32 {
+		*priority = math.MaxInt32
+	} else if written < math.MinInt32 {
+		*priority = math.MinInt32
+	}
 }
 
 // error for resource with kind: , name: ,namespace: ,
